@@ -565,6 +565,9 @@ def _count_lines(fn):
     r, w = os.pipe()
     pid = os.fork()
     if pid == 0:
+        import signal
+
+        signal.signal(signal.SIGXCPU, signal.SIG_DFL)
         ab = _Abort(10 ** 15)
         try:
             ab.run(fn)
@@ -607,6 +610,9 @@ class _RefServer:
                 os.close(w1)
                 os.close(r2)
                 sys.settrace(None)
+                import signal
+
+                signal.signal(signal.SIGXCPU, signal.SIG_DFL)  # never write into the run's result pipe
                 while True:
                     req = self._recv(r1)
                     if req is None:
@@ -652,7 +658,8 @@ class _RefServer:
         os.write(self.w, len(data).to_bytes(8, "big") + data)
         res = self._recv(self.r)
         if res is None:
-            raise RuntimeError("reference process died")
+            # the model ran out of its CPU budget (or died): no verdict for this run
+            raise ref.RefDiverged("reference process died")
         return res
 
     def close(self):
